@@ -603,7 +603,12 @@ Lemma prev_line_break_remover_total s pos : exists r, prev_line_break_remover s 
 Proof. unfold prev_line_break_remover. destruct (two_prev s pos); eexists; reflexivity. Qed.
 
 Lemma next_line_break_remover_total s pos : exists r, next_line_break_remover s pos = Ok r.
-Proof. unfold next_line_break_remover. destruct (two_next s pos); eexists; reflexivity. Qed.
+Proof.
+  unfold next_line_break_remover.
+  destruct (negb (is_boundary s pos)); [eexists; reflexivity|].
+  destruct (negb (residue_is_blank s pos)); [eexists; reflexivity|].
+  destruct (two_next s pos); eexists; reflexivity.
+Qed.
 
 Lemma prev_line_break_remover_spec s pos a b : wf_utf8 s = true -> is_boundary s pos = true ->
   pos <= length s -> prev_line_break_remover s pos = Ok (a, b) -> good s pos (a, b).
@@ -620,6 +625,10 @@ Lemma next_line_break_remover_spec s pos a b : wf_utf8 s = true -> is_boundary s
   pos <= length s -> next_line_break_remover s pos = Ok (a, b) -> good s pos (a, b).
 Proof.
   intros Hs Hb Hl H. unfold next_line_break_remover in H.
+  destruct (negb (is_boundary s pos));
+    [inversion H; subst a b; apply good_empty; assumption|].
+  destruct (negb (residue_is_blank s pos));
+    [inversion H; subst a b; apply good_empty; assumption|].
   destruct (two_next s pos) as [lb|] eqn:T.
   - inversion H; subst a b. destruct (two_next_spec s pos lb Hs Hb T) as (T1 & T2 & T3 & T4).
     unfold good. cbn [fst snd]. repeat split; try assumption; try lia.
